@@ -61,7 +61,7 @@ func VH05a_cooked() {
 	c1, err := sock.OpenContext()
 	verif.Assert(err == nil, lab+"/open-context")
 	cs := []*sctx{{name: "sock", sock: sock}, {name: "ctx", c: c1}}
-	if verif.Param("script", 0) == 1 {
+	if verif.Param("script", 0) >= 1 {
 		cs = cs[verif.Choice("on", 2):][:1]
 	}
 	var reqs []*reqrec
@@ -73,6 +73,12 @@ func VH05a_cooked() {
 	var script []int
 	if verif.Param("script", 0) == 1 {
 		script = []int{0, 1, 0, 1, 2, 2}
+		E = len(script)
+	}
+	// second directed family (script 2): a request is received, the requester's connection goes away, the reply
+	// is sent all the same (discarded), and a further Send has nothing to answer
+	if verif.Param("script", 0) == 2 {
+		script = []int{0, 1, 3, 2, 2}
 		E = len(script)
 	}
 	for e := 0; e < E; e++ {
